@@ -99,17 +99,8 @@ def gen_program(rng, gl):
     return prog, nsub
 
 
-def run(chk):
-    chk.trusted += ['hand model Model/RuleModel.v (reference semantics of the GDL-lite subset)', 'tools/props/fontkit.py: the GDL-lite compiler (FSM by subset construction, action bytecode, Silf v2 layout) — a wrong '
-                    'compilation shows as a disagreement, it cannot hide one', 'shaping harness harness/impl_shape.cpp']
-    chk.assumptions += ['GDL-lite: rule constraints limited to one advance comparison on one item (cntxt_item + push_slot_attr), cursor left after the window (ret = 0), left-to-right only; pass constraints, feature / glyph-attribute tests, cursor adjustment, bidi / mirroring and collision passes are outside this check',
-                        'reads inside an action refer to the window as it was when the rule fired (the engine keeps a temp copy of a slot that is both changed and referenced)']
-    chk.partial = True
-    chk.check_proofs()
-    thorough = chk.tier == 'thorough'
-    rng = chk.rng
-    w = engine.build(chk)
-    mexe = vlib.build_model_driver('Rule')
+def prepare(chk, w, tmp):
+    """the base font, the glyphs reachable from the keyboard, glyph -> character, and the advances as the engine sees them"""
     base = open(os.path.join(vlib.REPO, 'tests/fonts', BASE), 'rb').read()
     cm = cmapgen.parse_font_cmap(os.path.join(vlib.REPO, 'tests/fonts', BASE))
     chars = {c: g for c, g in cm.items() if 0x21 <= c <= 0x7E and g}
@@ -118,7 +109,6 @@ def run(chk):
         inv.setdefault(g, c)
     gl = sorted(inv)
     # advances as the engine sees them: an inert compiled font, the keyboard glyphs ten at a time
-    tmp = os.path.join(vlib.BUILD, 'fuzzfonts', 'c06-%s-%d' % (chk.tier, chk.seed))
     shutil.rmtree(tmp, ignore_errors=True); os.makedirs(tmp)
     inert = os.path.join(tmp, 'inert.ttf')
     open(inert, 'wb').write(K.build_font(base, [dict(maxloop=1, rules=[dict(pre=0, pat=[{gl[0]}, {gl[0]}, {gl[0]}, {gl[0]}, {gl[0]}], acts=[[('G', gl[0])], [], [], [], []])])]))
@@ -135,6 +125,22 @@ def run(chk):
         if hadv[g] != a:
             chk.tie_break('compiler', 'glyph %d: hmtx advance %d but the engine reports %d' % (g, hadv[g], a))
     advtab = ','.join(str(advs.get(g, hadv[g])) for g in range(ng))
+    return base, gl, inv, advtab
+
+
+def run(chk):
+    chk.trusted += ['hand model Model/RuleModel.v (reference semantics of the GDL-lite subset)', 'tools/props/fontkit.py: the GDL-lite compiler (FSM by subset construction, action bytecode, Silf v2 layout) — a wrong '
+                    'compilation shows as a disagreement, it cannot hide one', 'shaping harness harness/impl_shape.cpp']
+    chk.assumptions += ['GDL-lite: rule constraints limited to one advance comparison on one item (cntxt_item + push_slot_attr), cursor left after the window (ret = 0), left-to-right only; pass constraints, feature / glyph-attribute tests, cursor adjustment, bidi / mirroring and collision passes are outside this check',
+                        'reads inside an action refer to the window as it was when the rule fired (the engine keeps a temp copy of a slot that is both changed and referenced)']
+    chk.partial = True
+    chk.check_proofs()
+    thorough = chk.tier == 'thorough'
+    rng = chk.rng
+    w = engine.build(chk)
+    mexe = vlib.build_model_driver('Rule')
+    tmp = os.path.join(vlib.BUILD, 'fuzzfonts', 'c06-%s-%d' % (chk.tier, chk.seed))
+    base, gl, inv, advtab = prepare(chk, w, tmp)
     cases, mcases, progs = [], [], []
     for k in range(1500 if thorough else 150):
         prog, nsub = gen_program(rng, gl)
